@@ -22,7 +22,7 @@ EXPLANATION = (
     'propagated: a raising feeder signals on_error and stops, the five routed entry points return the error value of '
     'their role, a failed response future becomes an ERROR frame (shared with C10.a). Not decided: that requests on '
     'other streams are afterwards served correctly (a run-time fact).')
-EXPLANATION_ADDED = ('(g) an unsolicited LEASE cannot stall requests (shared C14.f); send_error puts exactly one ERROR frame with the stream id given; a request on a stream id in use is rejected before anything is registered (shared C13.d).')
+EXPLANATION_ADDED = ('(g) an unsolicited LEASE cannot stall requests (shared C14.f); send_error puts exactly one ERROR frame with the stream id given; a request on a stream id in use is rejected before anything is registered (shared C13.d); the data of the ERROR frame built for whatever a handler raised is text for every exception object, and every construction of a protocol error passes text (C12.g), so serialising the reply cannot kill the sender task.')
 EXPLANATION = EXPLANATION.replace(' Not decided', ' ' + EXPLANATION_ADDED + ' Not decided', 1) \
     if ' Not decided' in EXPLANATION else EXPLANATION + ' ' + EXPLANATION_ADDED
 ASSUMPTIONS = COMMON_ASSUMPTIONS
@@ -341,6 +341,133 @@ def rule_i(ctx):
     c13d(ctx)
 
 
+def _text_ast(node):
+    """AST expression whose value is text (str/bytes) or None whatever the operands are."""
+    if isinstance(node, ast.Constant):
+        return node.value is None or isinstance(node.value, (str, bytes))
+    if isinstance(node, ast.JoinedStr):
+        return True
+    if isinstance(node, ast.Call):
+        if isinstance(node.func, ast.Name) and node.func.id in ('str', 'repr', 'bytes', 'format', 'ascii'):
+            return True
+        if isinstance(node.func, ast.Attribute) and node.func.attr in ('decode', 'encode', 'format', 'join', 'hex'):
+            return True
+        if isinstance(node.func, ast.Name) and node.func.id in ('ensure_bytes', 'str_to_bytes'):
+            return bool(node.args) and _text_ast(node.args[0])
+    if isinstance(node, ast.BinOp) and isinstance(node.op, ast.Mod):
+        return isinstance(node.left, ast.Constant) and isinstance(node.left.value, (str, bytes))
+    if isinstance(node, ast.BinOp) and isinstance(node.op, ast.Add):
+        return _text_ast(node.left) and _text_ast(node.right)
+    if isinstance(node, ast.IfExp):
+        return _text_ast(node.body) and _text_ast(node.orelse)
+    return False
+
+
+def _text_term(term, annotated):
+    """Interpreter term whose value is text or None: str()/repr() of anything, a text constant, or an attribute the
+    caller has established as text (`annotated`)."""
+    term = strip_epoch(term)
+    if not isinstance(term, tuple):
+        return term is None or isinstance(term, (str, bytes))
+    if term[0] == 'const':
+        return term[1] is None or isinstance(term[1], (str, bytes))
+    if term[0] == 'pure' and term[1] in ('str', 'repr', 'format', 'ascii'):
+        return True
+    if term[0] == 'fstring':
+        return True
+    if term[0] == 'op' and term[1] == 'Mod':
+        left = term[2]
+        return isinstance(left, tuple) and left[0] == 'const' and isinstance(left[1], (str, bytes))
+    if term[0] == 'op' and term[1] == 'Add':
+        return _text_term(term[2], annotated) and _text_term(term[3], annotated)
+    if term[0] == 'call' and term[1] in ('decode', 'encode', 'format', 'join'):
+        return True
+    if term[0] == 'call' and term[1] in ('ensure_bytes', 'str_to_bytes') and term[2]:
+        return _text_term(term[2][0], annotated)
+    if term[0] == 'attr' and term[2] in annotated:
+        return True
+    return False
+
+
+def rule_j(ctx):
+    """The ERROR frame built for whatever a handler raised can always be serialised: its data is text or None for
+    every exception object.  A non-text value (an exception argument passed through as is) makes the one sender task
+    die in serialisation, after which no stream of the connection gets another frame."""
+    rep = ctx.report
+    repo = ctx.repo
+    f = repo.func('rsocket.frame:exception_to_error_frame')
+    perr = repo.cls('rsocket.exceptions:RSocketProtocolError')
+    # (1) what RSocketProtocolError.data can hold: every constructor call and every super().__init__ of a subclass
+    init = perr.lookup('__init__')
+    if init is None:
+        raise AnalysisError('C12.g: RSocketProtocolError has no __init__')
+    params = [a.arg for a in init.node.args.args]
+    if 'data' not in params:
+        raise AnalysisError('C12.g: RSocketProtocolError.__init__ has no data parameter')
+    pos = params.index('data') - 1
+    stored = [n for n in ast.walk(init.node) if isinstance(n, ast.Assign) and
+              ast.unparse(n.targets[0]) == 'self.data']
+    direct = all(isinstance(n.value, ast.Name) and n.value.id == 'data' or _text_ast(n.value) for n in stored)
+    default = init.node.args.defaults[-1] if init.node.args.defaults else None
+    sub = {k.qualname for k in repo.all_classes() if perr in k.mro()}
+    n_sites = 0
+    bad_sites = []
+    for fn in repo.all_functions():
+        if not fn.qualname.startswith('rsocket'):
+            continue
+        if True:
+            for n in ast.walk(fn.node):
+                if not isinstance(n, ast.Call):
+                    continue
+                is_ctor = isinstance(n.func, ast.Name) and n.func.id == perr.name
+                is_super = (isinstance(n.func, ast.Attribute) and n.func.attr == '__init__' and
+                            isinstance(n.func.value, ast.Call) and isinstance(n.func.value.func, ast.Name) and
+                            n.func.value.func.id == 'super' and fn.cls is not None and fn.cls.qualname in sub and
+                            fn.cls is not perr and fn.cls.mro()[1] is perr)
+                if not (is_ctor or is_super):
+                    continue
+                n_sites += 1
+                arg = None
+                for kw in n.keywords:
+                    if kw.arg == 'data':
+                        arg = kw.value
+                if arg is None and len(n.args) > pos:
+                    arg = n.args[pos]
+                if arg is not None and not _text_ast(arg):
+                    bad_sites.append('%s line %d passes %s' % (fn.qualname, n.lineno, ast.unparse(arg)))
+    if n_sites < 5:
+        raise AnalysisError('C12.g: only %d constructions of the protocol error found' % n_sites)
+    ok_attr = bool(stored) and direct and not bad_sites and (default is None or _text_ast(default))
+    rep.add('C12.g', 'RSocketProtocolError / data is text at every construction', init, ok_attr,
+            '; '.join(bad_sites) if bad_sites else
+            'all %d constructions (and subclass initialisers) pass text or nothing as data' % n_sites if ok_attr else
+            'the data attribute is not the constructor argument')
+    # (2) the frame builder
+    ps = ctx.paths(f, None, inline_depth=0)
+    if not ps:
+        raise AnalysisError('C12.g: exception_to_error_frame has no paths')
+    ok, detail, n_store = True, '', 0
+    for p in ps:
+        if p.outcome != 'return':
+            ok, detail = False, 'building the error frame can itself raise'
+            continue
+        is_protocol = any(e.kind == 'cond' and 'isinstance' in repr(e.data['key']) and
+                          'RSocketProtocolError' in repr(e.data['key']) and e.data['value'] for e in p.events)
+        last = None
+        for e in p.events:
+            if e.kind == 'store' and e.data['target'][0] == 'attr' and e.data['target'][2] == 'data':
+                last = e
+        if last is None:
+            ok, detail = False, 'a path builds the error frame without data'
+            continue
+        n_store += 1
+        if not _text_term(last.data['value'].term, {'data'} if (is_protocol and ok_attr) else set()):
+            ok, detail = False, 'the error data is %s, which is text only for some exceptions' % \
+                fmt_term(strip_epoch(last.data['value'].term))
+    rep.add('C12.g', 'exception_to_error_frame / error data is text for every exception', f, ok,
+            detail or 'on all %d paths the data is the text of the exception (or a protocol error\'s text)' % n_store)
+
+
 def rule_g(ctx):
     """An unsolicited LEASE frame cannot stall the victim's requests (shared C14.f)."""
     from .c14 import rule_gate_scope
@@ -348,4 +475,4 @@ def rule_g(ctx):
 
 
 RULES = [('C12.a', rule_a), ('C12.b', rule_b), ('C12.c', rule_c), ('C12.d', rule_d), ('C12.e', rule_e),
-         ('C12.f', rule_f), ('C14.f', rule_g), ('C12.b', rule_h), ('C13.d', rule_i)]
+         ('C12.f', rule_f), ('C14.f', rule_g), ('C12.b', rule_h), ('C13.d', rule_i), ('C12.g', rule_j)]
